@@ -492,4 +492,10 @@ PROPS["C10"]["parts"].append(dict(_TWO, args=["--prop", "C10"]))
 PROPS["C10"]["level_text"] += " The strict parser also monitors every datagram of the two-client exploration (props/ea2.c)."
 PROPS["C15"]["parts"].append(dict(_TWO, args=["--prop", "C15"]))
 PROPS["C15"]["level_text"] += " (3) The same monitor, per session, on the two-client exploration (client-to-client packets are re-cut by the server at the receiving session's size)."
+PROPS["C10"]["level_text"] += " The auxiliary part asks every query three ways: from an IPv4 address, from an IPv6 address on the IPv6 listening socket, and from IPv6 with an external address configured (-n)."
+PROPS["C15"]["level_text"] += " E-B also starts from three warmed-up sessions (N(200), a 1000-byte packet in flight, four fragments fetched and acknowledged, so that the four-entry answer cache is full and has wrapped), where the 1st..5th most recent queries can be re-delivered with a fresh id."
+PROPS["C16"]["level_text"] += " Data queries can be delivered upper-cased the first time (a 0x20-style relay) and re-delivered in either case; the warm-ups alternate the two."
+PROPS["C06"]["level_text"] += " The menu includes names that expand beyond any name buffer (1-3 labels of 1/32/63 bytes followed by a compression pointer to themselves or to the question) in the question, the owner name and the record target."
+PROPS["C04"]["level_text"] += " A fifth start state has a lazy-mode session with a ping held by the server (so that a slot can change hands while the server still remembers a query of the previous owner)."
+PROPS["C03"]["level_text"] += " A fifth start state has a logged-in lazy-mode session with a ping held by the server."
 
